@@ -1154,3 +1154,66 @@ def gen_C07(tier, seed):
 
 
 GENERATORS["C07"] = gen_C07
+
+
+# ---- leap seconds file provider (C06, second generator merged below) ----
+def gen_leapfile(tier, seed):
+    r = random.Random(seed * 7919 + 6)
+    out = []
+    repo = os.environ.get("VERIF_REPO", "/repo")
+    shipped = open(os.path.join(repo, "data", "leap-seconds.list"), encoding="utf-8").read()
+    out.append("leapfile " + enc(shipped))
+    for ts in LEAP_TS:
+        for d in (-1, 0, 1):
+            c, n = parts_of(ts * SEC + d)
+            out.append(f"leapfile_lookup {enc(shipped)} {c} {n}")
+    for v in (0, -1, MINV, MAXV - 1, 5 * NPC):
+        c, n = parts_of(v)
+        out.append(f"leapfile_lookup {enc(shipped)} {c} {n}")
+    lines = shipped.split("\n")
+    data_idx = [i for i, l in enumerate(lines) if l and not l.startswith("#")]
+    fixed = ["", "\n", "#\n", "# only a comment", "10 5", "10 5\n", "10 5\r\n", "10 5\r", "10\n", "10 \n", " \n", "\t\n", "-10 5\n", "+10 +5\n", "10 -5\n",
+             "10 256\n", "10 255\n", "10 5 6 7\n", " # not a comment\n", "18446744073709551615 1\n", "18446744073709551616 1\n", "5 1\n3 2\n", "1e3 4\n",
+             "0x10 4\n", "007 08\n", "10\u00a05\n", "10\u20035\n", "10\u200b5\n", "\u0661\u0660 5\n", "10 5\n\n\n20 6\n", "10 5\x0b20 6\n", "10 5\x0c\n", "10,5\n", "10.0 5\n",
+             "99999999999999999999 1\n", "1 1\n2 2\n3 3\n", "3 1\n3 2\n", "#10 5\n10 5", "\ufeff10 5\n", "10 5 #c\n", "4000000000 9\n", "9007199254740993 9\n"]
+    for t in fixed:
+        out.append("leapfile " + enc(t))
+        for v in (0, 4 * SEC, 10 * SEC, 20 * SEC, 3 * SEC - 1):
+            c, n = parts_of(v)
+            out.append(f"leapfile_lookup {enc(t)} {c} {n}")
+    n = budget(tier, 400, 20000)
+    for _ in range(n):
+        k = r.random()
+        if k < 0.35:      # mutate the shipped file: a few characters or whole lines
+            ls = list(lines)
+            for _ in range(r.randint(1, 3)):
+                i = r.choice(data_idx)
+                m = r.random()
+                if m < 0.3:
+                    ls[i] = mutate(r, ls[i], r.randint(1, 2))
+                elif m < 0.5:
+                    ls[i] = ""
+                elif m < 0.7:
+                    ls[i] = "#" + ls[i]
+                else:
+                    ls[i], ls[r.choice(data_idx)] = ls[r.choice(data_idx)], ls[i]
+            t = "\n".join(ls[-40:])          # the tail holds the table; keeps cases short
+        else:             # synthetic small tables
+            rows = []
+            ts = r.randint(0, 3 * 10**9)
+            for j in range(r.randint(0, 6)):
+                ts += r.choice([0, 1, r.randint(1, 10**8), -r.randint(1, 10**6)])
+                rows.append(f"{max(0, ts)}{r.choice([' ', '  ', chr(9), ' ' + chr(9)])}{r.randint(0, 60)}{r.choice(['', '', ' # x', ' y'])}")
+                if r.random() < 0.2:
+                    rows.append(r.choice(["# c", "", "  ", mutate(r, rows[-1], 1)]))
+            t = r.choice(["\n", "\r\n"]).join(rows) + r.choice(["", "\n"])
+        if r.random() < 0.5:
+            out.append("leapfile " + enc(t))
+        else:
+            c, nn = parts_of(r.choice([r.randint(0, 4 * 10**9) * SEC + r.randint(-2, 2), r.choice(LEAP_TS) * SEC + r.randint(-2, 2)]))
+            out.append(f"leapfile_lookup {enc(t)} {c} {nn}")
+    return out
+
+
+_gen_C06_core = GENERATORS["C06"]
+GENERATORS["C06"] = lambda tier, seed: _gen_C06_core(tier, seed) + gen_leapfile(tier, seed)
